@@ -34,7 +34,7 @@ func sameBatch(e vEvent, s sentBatch) bool {
 func runC08(tier string, _ []string) int {
 	c := vlib.NewCtx("C08", tier, "exploration")
 	vlib.SetPortBlock(8)
-	c.SetRule("per case a fresh instance, a real client.Manager and 3-6 instrumented clients (one with children, one nested under a group, one mirrored under two parents); then 30-200 acknowledged batches from one connection (so acceptance order = send order) with origins from {'', own id, sibling id, child id, 'user-x'} to the clients' nodes, their children, siblings, unrelated nodes and the groups above, node points and edge points, non-decreasing timestamps per identity (one node batch in seventeen holds 13-40 points with identities repeated under one time stamp); a marker point with a foreign origin closes each client's stream. Oracle per client: delivered callbacks == the sent batches addressed to its node or a descendant, in order, where foreign-origin batches MUST appear, self-authored ones ('' on the own node, origin == own id) MUST NOT, and '' on a descendant MAY; fold check: constructed config + delivered (+ self-authored) points via MergePoints/MergeEdgePoints == Decode of what GetNodes returns. distinct = (target kind, origin kind, node|edge, class) In every second case a node outside every client subtree is then attached below a client node while a second connection writes to it back to back; after the manager has settled, a foreign point written to the newcomer must reach that client (marker barrier on the client node). In every sixteenth case a client is kept busy (its Points call does not return) while 1500 foreign changes to its node are accepted; afterwards it must be told of all of them in order.")
+	c.SetRule("per case a fresh instance, a real client.Manager and 3-6 instrumented clients (one with children, one nested under a group, one mirrored under two parents); then 30-200 acknowledged batches from one connection (so acceptance order = send order) with origins from {'', own id, sibling id, child id, 'user-x'} to the clients' nodes, their children, siblings, unrelated nodes and the groups above, node points and edge points, non-decreasing timestamps per identity (one node batch in seventeen holds 13-40 points with identities repeated under one time stamp); a marker point with a foreign origin closes each client's stream. One client per case has its constructor held back while a foreign point is written to its node: it must be told afterwards. Oracle per client: delivered callbacks == the sent batches addressed to its node or a descendant, in order, where foreign-origin batches MUST appear, self-authored ones ('' on the own node, origin == own id) MUST NOT, and '' on a descendant MAY; fold check: constructed config + delivered (+ self-authored) points via MergePoints/MergeEdgePoints == Decode of what GetNodes returns. distinct = (target kind, origin kind, node|edge, class) In every second case a node outside every client subtree is then attached below a client node while a second connection writes to it back to back; after the manager has settled, a foreign point written to the newcomer must reach that client (marker barrier on the client node). In every sixteenth case a client is kept busy (its Points call does not return) while 1500 foreign changes to its node are accepted; afterwards it must be told of all of them in order.")
 	c.Assume("structure is fixed during the write phase (restarts belong to C07); tombstoned array elements are not generated (Decode documents that holes may remain)")
 	nRuns := c.N(40, 400)
 	wd := c.NewWatchdog()
@@ -89,6 +89,38 @@ func runC08(tier string, _ []string) int {
 			// mirror vnodes[1] under the root as well: two placements, two clients
 			if e, err := d.sendEdge(vnodes[1], g.Root, data.Points{{Type: data.PointTypeTombstone, Time: d.now()}, {Type: data.PointTypeNodeType, Text: "vNode"}}); err != nil || e != "" {
 				panic(fmt.Sprint("mirror refused: ", err, e))
+			}
+			// one more client whose constructor is held back by the harness: a foreign point is written (and
+			// acknowledged) while the client is being created from its snapshot, then the constructor goes on. The
+			// client has to be told of that point afterwards (folded below like everything else)
+			{
+				gid := fmt.Sprintf("%s-n%d", d.tag, d.seq+1)
+				release := v.mon.gateConstruct(gid)
+				got := mk(g.Root, "vNode", base())
+				if got != gid {
+					release()
+					panic("gated node: id mismatch " + got + " / " + gid)
+				}
+				entered := false
+				for w := 0; w < 500 && !entered; w++ {
+					for _, e := range v.mon.snapshot() {
+						if e.Kind == "construct-entered" && e.Node == gid {
+							entered = true
+						}
+					}
+					if !entered {
+						time.Sleep(20 * time.Millisecond)
+					}
+				}
+				if entered {
+					if e, err := d.sendNode(gid, data.Points{{Type: "description", Time: d.now(), Text: "written during construction", Origin: "user-x"}, {Type: "gain", Time: d.now(), Value: 2.5, Origin: "user-x"}}); err != nil || e != "" {
+						release()
+						panic(fmt.Sprint("setup refused: ", err, e))
+					}
+					c.Count("points_written_while_a_client_was_being_constructed", 1)
+				}
+				release()
+				vnodes = append(vnodes, gid)
 			}
 			others = append(others, mk(g.Root, "variable", nil), mk(grp, "variable", nil))
 			// a node with a child of its own, outside every client subtree (joins one later)
